@@ -15,7 +15,7 @@ pub struct C14;
 
 const NT: usize = 3;
 const NS: usize = 3;
-const NR: usize = 3;
+const NR: usize = 4; // receivers 0..2 are accounts, receiver 3 is the gas service itself
 const START: i128 = 500;
 
 #[derive(Clone, Copy, Debug, Serialize, Deserialize, PartialEq, Eq)]
@@ -26,6 +26,7 @@ pub enum Amt {
     Small(u8),
     Bal,
     BalPlus1,
+    Max,
 }
 
 #[derive(Clone, Copy, Debug, Serialize, Deserialize, PartialEq, Eq)]
@@ -52,7 +53,7 @@ pub struct Case {
 }
 
 fn amt() -> impl Strategy<Value = Amt> {
-    prop_oneof![1 => Just(Amt::Zero), 1 => Just(Amt::Neg), 2 => Just(Amt::One), 5 => (2u8..90).prop_map(Amt::Small), 2 => Just(Amt::Bal), 2 => Just(Amt::BalPlus1)]
+    prop_oneof![1 => Just(Amt::Zero), 1 => Just(Amt::Neg), 2 => Just(Amt::One), 5 => (2u8..90).prop_map(Amt::Small), 2 => Just(Amt::Bal), 2 => Just(Amt::BalPlus1), 1 => Just(Amt::Max)]
 }
 fn by() -> impl Strategy<Value = By> {
     prop_oneof![6 => Just(By::Collector), 1 => Just(By::Stranger), 1 => Just(By::Owner), 1 => Just(By::Nobody)]
@@ -74,6 +75,7 @@ fn resolve(a: Amt, bal: i128) -> i128 {
         Amt::Small(k) => k as i128,
         Amt::Bal => bal,
         Amt::BalPlus1 => bal + 1,
+        Amt::Max => i128::MAX,
     }
 }
 
@@ -83,7 +85,7 @@ impl Property for C14 {
         "C14"
     }
     fn rule(&self) -> &'static str {
-        "proptest histories (<=30 quick / <=60 thorough ops) over 3 tokens (two Stellar asset contracts and one current-source InterchainToken), 3 spenders, 3 receivers: pay_gas, add_gas, collect_fees, refund with amounts 0, -1, 1, small, exact balance, balance+1 (relative to the spender's balance for payments and to the service's balance for payouts), payouts authorised by the collector, by a stranger, by the contract owner, or by nobody. Oracle: per-token running balance = paid + added - collected - refunded, compared with token.balance(service) and all spender/receiver balances after every step; payments need amount > 0 and move exactly that; payouts need the collector and never exceed the balance; one gas service event per movement with the same token and amount (gas_paid also carries own keccak(payload)); refused calls leave the ledger snapshot identical. non-trivial = history touches >= 2 tokens and contains a successful payout; distinct by Debug hash"
+        "proptest histories (<=30 quick / <=60 thorough ops) over 3 tokens (two Stellar asset contracts and one current-source InterchainToken), 3 spenders, 4 receivers (three accounts and the gas service itself): pay_gas, add_gas, collect_fees, refund with amounts 0, -1, 1, small, exact balance, balance+1, i128::MAX (relative to the spender's balance for payments and to the service's balance for payouts), payouts authorised by the collector, by a stranger, by the contract owner, or by nobody. Oracle: per-token running balance = paid + added - collected - refunded, compared with token.balance(service) and all spender/receiver balances after every step; payments need amount > 0 and move exactly that; payouts need the collector and never exceed the balance; one gas service event per movement with the same token and amount (gas_paid also carries own keccak(payload)); refused calls leave the ledger snapshot identical. non-trivial = history touches >= 2 tokens and contains a successful payout; distinct by Debug hash"
     }
     fn assumptions(&self) -> Vec<&'static str> {
         vec!["a zero-amount refund by the collector moves nothing and is not decided by the statement (Either)"]
@@ -99,7 +101,8 @@ impl Property for C14 {
         let env = new_env();
         let gas = deploy_gas(&env);
         let spenders: Vec<Address> = (0..NS).map(|_| Address::generate(&env)).collect();
-        let receivers: Vec<Address> = (0..NR).map(|_| Address::generate(&env)).collect();
+        let mut receivers: Vec<Address> = (0..NR - 1).map(|_| Address::generate(&env)).collect();
+        receivers.push(gas.id.clone());
         let stranger = Address::generate(&env);
         let sender = Address::generate(&env);
         env.mock_all_auths();
@@ -211,8 +214,10 @@ impl Property for C14 {
                     let r = gas.client.try_collect_fees(&receivers[ri], &tok);
                     ok = matches!(r, Ok(Ok(())));
                     if ok {
-                        rbal[ti][ri] += amount;
-                        held[ti] -= amount;
+                        if ri != NR - 1 {
+                            rbal[ti][ri] += amount;
+                            held[ti] -= amount;
+                        }
                         want_event = Some(("gas_collected", tok));
                         payout = true;
                     }
@@ -231,8 +236,10 @@ impl Property for C14 {
                     let r = gas.client.try_refund(&sstr(&env, "msg"), &receivers[ri], &tok);
                     ok = matches!(r, Ok(Ok(())));
                     if ok {
-                        rbal[ti][ri] += amount;
-                        held[ti] -= amount;
+                        if ri != NR - 1 {
+                            rbal[ti][ri] += amount;
+                            held[ti] -= amount;
+                        }
                         want_event = Some(("gas_refunded", tok));
                         if amount > 0 {
                             payout = true;
@@ -271,7 +278,7 @@ impl Property for C14 {
                 for s in 0..NS {
                     ensure_p!(tc.balance(&spenders[s]) == sbal[t][s], "after step {}: spender balance differs from the model", step);
                 }
-                for r in 0..NR {
+                for r in 0..NR - 1 {
                     ensure_p!(tc.balance(&receivers[r]) == rbal[t][r], "after step {}: receiver balance differs from the model", step);
                 }
             }
